@@ -1,6 +1,7 @@
 """Traversal facts of the validators (C08): the rule-enforcing functions are
 reached for every position - nested groups, inline composites, every public
 encoding - not only where the test suite happens to exercise them."""
+import re
 from common import *
 import gen
 import gguard
@@ -107,8 +108,33 @@ def check_required_rules(chk):
             chk.broke("G-REQ: %s not found" % where_fn)
             continue
         cs = set()
-        for fn in lst:
+        work, seen = list(lst), set()
+        depth = {id(fn): 0 for fn in lst}
+        while work:
+            fn = work.pop()
+            if id(fn) in seen:
+                continue
+            seen.add(id(fn))
             cs |= callees(fn, by_key)
+            if depth[id(fn)] >= 2:
+                continue
+            # follow calls into helpers of the same class (validate_x -> advance_offset -> numeric_limits::max)
+            for n in walk(fn["body"]):
+                k = (n.get("callee") or {}).get("key")
+                t = by_key.get(k)
+                if t is not None and t["file"] == fn["file"] and id(t) not in seen:
+                    depth[id(t)] = depth[id(fn)] + 1
+                    work.append(t)
+        # an overflow test has no callee of its own (numeric_limits<>::max() is folded): accept the idiom
+        # `size > MAX - offset` in a throw-site guard of any function reached
+        if key == "offset-plus-size-bounded":
+            sites, _ = gguard.extract()
+            reached = {gguard.short_fn(fx) for fx in gen.sbeppc_functions(f) if id(fx) in seen}
+            for k2, lst2 in sites.items():
+                if k2.split(" | ")[0] in reached:
+                    for g, fc in lst2:
+                        if any(re.search(r"\(?\d{15,} - [\w.>*()-]+\)? <|< \(?\d{15,} - |add_overflow", c2) for c2 in g):
+                            cs.add("max")
         if any(a in cs for a in any_of):
             chk.ok("G-REQ", key, {"enforced_in": where_fn})
         else:
